@@ -14,7 +14,7 @@ import io
 import osaca.semantics.hw_model as hw
 from osaca.semantics import MachineModel
 
-from vp.api import verdict, skip, shard, kf_state
+from vp.api import verdict, skip, shard, kf_state, StubGap, stub_gap
 from vp.symx import pick, canon, NoTracing
 
 MODEL = "/data/arch.yml"
@@ -94,6 +94,9 @@ def install(fs):
         def open(self, mode="r"):
             return fopen(self.p, mode)
 
+        def __getattr__(self, name):
+            raise StubGap("Path.%s" % name)
+
     class FFile:
         def __init__(self, path, mode):
             self.path, self.mode = path, mode
@@ -114,24 +117,41 @@ def install(fs):
         def __exit__(self, *a):
             return False
 
-        def readline(self):
+        def readline(self, *a):
+            if a:
+                raise StubGap("file.readline(size)")
             return self.lines.pop(0) if self.lines else ""
 
-        def read(self):
+        def read(self, *a):
+            if a or not hasattr(self, "lines"):
+                raise StubGap("file.read(%r) on %s" % (a, self.mode))
             out = "".join(self.lines)
             self.lines = []
             return out
+
+        def __getattr__(self, name):
+            raise StubGap("file.%s" % name)
 
     def fopen(path, mode="r"):
         return FFile(str(path), mode)
 
     class FHash:
         @staticmethod
-        def sha256(b):
+        def sha256(*a):
+            if len(a) != 1 or not (isinstance(a[0], tuple) and a[0][0] == "bytes"):
+                raise StubGap("hashlib.sha256 used incrementally / on other data")
+            b = a[0]
+
             class D:
                 def hexdigest(self_inner):
                     return "h%d" % b[1]
+
+                def __getattr__(self_inner, name):
+                    raise StubGap("sha256().%s" % name)
             return D()
+
+        def __getattr__(self, name):
+            raise StubGap("hashlib.%s" % name)
 
     class FPickle:
         UnpicklingError = hw.pickle.UnpicklingError
@@ -172,6 +192,9 @@ def install(fs):
                 raise OSError("read-only home")
             fs.dirs.add(str(path))
 
+        def __getattr__(self, name):
+            raise StubGap("os.%s" % name)
+
     class FYaml:
         def load(self, f):
             text = f if isinstance(f, str) else f.read()
@@ -180,7 +203,7 @@ def install(fs):
             return d
 
     saved = (hw.Path, hw.hashlib, hw.pickle, hw.os, getattr(hw, "open", None), MachineModel._create_yaml_object, hw.utils.CACHE_DIR, dict(MachineModel._runtime_cache))
-    hw.Path, hw.hashlib, hw.pickle, hw.os, hw.open = FPath, FHash, FPickle, FOS, fopen
+    hw.Path, hw.hashlib, hw.pickle, hw.os, hw.open = FPath, FHash(), FPickle, FOS(), fopen
     MachineModel._create_yaml_object = lambda self: FYaml()
     hw.utils.CACHE_DIR = CACHE_DIR
     return saved
@@ -243,6 +266,9 @@ def one_run(c_now: int, c_comp: int, c_home: int, st_comp: int, st_home: int, wr
         crashed = None
         try:
             data = construct(fs, lazy=True if lazy else False)
+        except StubGap as e:
+            stub_gap(e)
+            return True
         except Exception as e:   # noqa
             crashed = e
             data = None
@@ -301,11 +327,17 @@ def history(e0: int, e1: int, e2: int, writable: bool) -> bool:
                     construct(fs)
                 except CrashDuringWrite:
                     pass
+                except StubGap as e:
+                    stub_gap(e)
+                    return True
                 fs.crash_write = None
                 continue
             MachineModel._runtime_cache.clear() if x == "run" else None
             try:
                 data = construct(fs, lazy=(x == "run_lazy"))
+            except StubGap as e:
+                stub_gap(e)
+                return True
             except Exception:   # noqa
                 ok = st == "relaxed"
                 break
@@ -342,11 +374,118 @@ def pickle_contract(cut: int) -> bool:
     return verdict(ok, nontrivial=nt, sample=sample)
 
 
+# ---- concrete witness on a real file system (validates the stub contract end to end) -------------
+
+REAL_EVENTS = ["run", "edit_tail", "edit_head", "cut_cache_0", "cut_cache_mid", "cut_cache_last", "readonly_datadir"]
+
+
+def _real_fs_concrete(ev):
+    import glob
+    import os
+    import shutil
+    import tempfile
+    import osaca.utils as utils
+    src = utils.find_datafile("zen1.yml")
+    td = tempfile.mkdtemp(prefix="vp_c17_")
+    saved_cd, saved_rc = utils.CACHE_DIR, dict(MachineModel._runtime_cache)
+    try:
+        os.makedirs(os.path.join(td, "data"))
+        os.makedirs(os.path.join(td, "home"))
+        path = os.path.join(td, "data", "zen1.yml")
+        shutil.copy(src, path)
+        utils.CACHE_DIR = os.path.join(td, "home", "cache")
+
+        def reference():
+            gc, wc = MachineModel._get_cached, MachineModel._write_in_cache
+            MachineModel._get_cached = lambda s_, p_: False
+            MachineModel._write_in_cache = lambda s_, p_: None
+            try:
+                MachineModel._runtime_cache.clear()
+                return repr(MachineModel(path_to_yaml=path)._data["instruction_forms_dict"]) + repr(MachineModel(path_to_yaml=path)._data.get("load_latency"))
+            finally:
+                MachineModel._get_cached, MachineModel._write_in_cache = gc, wc
+                MachineModel._runtime_cache.clear()
+
+        def run():
+            MachineModel._runtime_cache.clear()          # a new process
+            d = MachineModel(path_to_yaml=path)._data
+            return repr(d["instruction_forms_dict"]) + repr(d.get("load_latency"))
+
+        ok = True
+        n_edit = 0
+        for x in list(ev) + ["run"]:
+            if x == "run":
+                if run() != reference():
+                    ok = False
+                    break
+            elif x == "edit_tail":
+                n_edit += 1
+                txt = open(path).read()
+                k = txt.rindex("latency:")
+                e = txt.index("\n", k)
+                open(path, "w").write(txt[:k] + "latency: %d.0" % (40 + n_edit) + txt[e:])
+            elif x == "edit_head":
+                n_edit += 1
+                txt = open(path).read()
+                k = txt.index("load_latency:")
+                e = txt.index("\n", k)
+                open(path, "w").write(txt[:k] + "load_latency: {gpr: %d.0, xmm: 4.0, ymm: 4.0}" % (10 + n_edit) + txt[e:])
+            elif x.startswith("cut_cache"):
+                for f in glob.glob(os.path.join(td, "data", ".zen1_*.pickle")) + glob.glob(os.path.join(td, "home", "cache", "zen1_*.pickle")):
+                    n = os.path.getsize(f)
+                    cut = {"cut_cache_0": 0, "cut_cache_mid": n // 2, "cut_cache_last": max(n - 1, 0)}[x]
+                    with open(f, "rb") as fh:
+                        blob = fh.read()
+                    with open(f, "wb") as fh:
+                        fh.write(blob[:cut])
+            elif x == "readonly_datadir":
+                os.chmod(os.path.join(td, "data"), 0o555)
+        return ok, True, {"events": list(ev) + ["run"]}
+    finally:
+        utils.CACHE_DIR = saved_cd
+        MachineModel._runtime_cache.clear()
+        MachineModel._runtime_cache.update(saved_rc)
+        try:
+            os.chmod(os.path.join(td, "data"), 0o755)
+        except OSError:
+            pass
+        shutil.rmtree(td, ignore_errors=True)
+
+
+def real_fs2(e0: int, e1: int) -> bool:
+    """
+    pre: 0 <= e0 < 7 and 0 <= e1 < 7
+    post: _
+    """
+    from vp.symx import native
+    lo, hi = shard(49)
+    if not (lo <= e0 * 7 + e1 < hi):
+        return True
+    ok, nt, sample = native(_real_fs_concrete, ["run", REAL_EVENTS[pick(e0, 7)], REAL_EVENTS[pick(e1, 7)]])
+    return verdict(ok, nontrivial=nt, sample=sample)
+
+
+def real_fs(e0: int, e1: int, e2: int) -> bool:
+    """
+    pre: 0 <= e0 < 7 and 0 <= e1 < 7 and 0 <= e2 < 7
+    post: _
+    """
+    from vp.symx import native
+    lo, hi = shard(49)
+    if not (lo <= e0 * 7 + e1 < hi):
+        return True
+    ok, nt, sample = native(_real_fs_concrete, [REAL_EVENTS[pick(e0, 7)], REAL_EVENTS[pick(e1, 7)], REAL_EVENTS[pick(e2, 7)]])
+    return verdict(ok, nontrivial=nt, sample=sample)
+
+
 CELLS = {
     "one_run": {"fn": one_run, "bound": "one construction from every file-system state: content ids by equality pattern (current / companion slot's / home slot's), 7 slot states each, data dir writable or not, home creatable or not, stale in-process cache entry, lazy or full load",
                 "budget": {"quick": 170, "thorough": 600}, "shards": 16},
     "history": {"fn": history, "bound": "all 3-event histories over {run, run crashing in the cache write (0 bytes / mid-stream / last byte missing), file edited, racing writer mid-write, lazy run, data dir becomes read-only} followed by a run",
                 "budget": {"quick": 170, "thorough": 600}, "shards": 16},
+    "real_fs2": {"fn": real_fs2, "tiers": ("quick",), "bound": "as real_fs with histories run + 2 events + run", "budget": {"quick": 170}, "shards": 16},
+    "real_fs": {"fn": real_fs, "tiers": ("thorough",), "bound": "concrete witness on a real temporary file system with real pickles (zen1.yml copy): all 3-event histories over {run, edit near the end of the file, edit in the header, cache file cut to 0 bytes / half / last byte missing, data directory made read-only} followed by a run, each run compared with a cache-less parse of the current content",
+                "budget": {"thorough": 900}, "shards": 16},
     "pickle_contract": {"fn": pickle_contract, "bound": "real pickle stream cut at 0 bytes / header / mid-stream / last byte", "budget": {"quick": 60, "thorough": 60}},
 }
 
